@@ -11,6 +11,10 @@ ASSUME = [
 
 
 def run(ctx):
+    if ctx.replay:
+        cov = io_ovmb.replay(ctx, "C07")
+        ctx.set_evidence(level="other", coverage=cov, assumptions=ASSUME)
+        return
     a = io_ascii.run_c07(ctx)
     b = io_ovmb.run_c07(ctx)
     cov = merge(a, b)
